@@ -105,6 +105,7 @@ inductive Op (γ : Type) where
   | write (name ext : Name) (c : γ)        -- any writer that goes through get_new_file_name
   | delete (file : Name)                    -- the user removes a file
   | backup (file : Name) (rename : Bool)    -- create_backup
+  | create (file : Name) (c : γ)            -- the user (or any other program) creates or replaces a file
 deriving Repr
 
 /-- one step; the second component is the name produced (if any) -/
@@ -118,6 +119,7 @@ def step {γ} (d : Dir γ) : Op γ → Dir γ × Option Name
     match createBackup d f r with
     | some (d', n) => (d', some n)
     | none => (d, none)
+  | .create f c => (put d f c, none)
 
 /-- run a history; returns the final directory and the produced names in order -/
 def run {γ} (d : Dir γ) : List (Op γ) → Dir γ × List (Option Name)
@@ -138,11 +140,13 @@ def endsWith (s p : List Char) : Bool := startsWith s.reverse p.reverse
 
 /-- `files_of_type(ext)`: `model.ext` and `model~*.ext` (glob `*` matches anything, and
 the model name is taken literally) -/
+def ofTypeB (model ext n : Name) : Bool :=
+  n == model ++ '.' :: ext ||
+  (startsWith n (model ++ ['~']) && endsWith n ('.' :: ext) &&
+    decide (n.length ≥ model.length + 1 + (ext.length + 1)))
+
 def ofType (names : List Name) (model ext : Name) : List Name :=
-  names.filter fun n =>
-    n == model ++ '.' :: ext ||
-    (startsWith n (model ++ ['~']) && endsWith n ('.' :: ext) &&
-      decide (n.length ≥ model.length + 1 + (ext.length + 1)))
+  names.filter (ofTypeB model ext)
 
 /-- lexicographic `<` on names (Python's string order on code points) -/
 def ltName : List Char → List Char → Bool
